@@ -214,7 +214,7 @@ def ev_optimize(c_raw, obj, maximize, via="contract"):
 
 
 # ------------------------------------------------------------------ runner
-def run(prop, tier, cases, run_case, rule, owner, replay=None, nontrivial=None, batch=300, sig_of=None, rep=None):
+def run(prop, tier, cases, run_case, rule, owner, replay=None, nontrivial=None, batch=300, sig_of=None, rep=None, extra=None):
     collect = rep is not None
     rep = rep or Report(prop, tier)
     rd = run_dir(prop + ("-sub" if collect else ""))
@@ -249,13 +249,15 @@ def run(prop, tier, cases, run_case, rule, owner, replay=None, nontrivial=None, 
                 rep.violation(sig, {"case": case, "event": family.clean_json(ev), "verdict": [kind, detail]})
             if l == 1:
                 rep.sample({"event": family.clean_json({k: v for k, v in ev.items() if k != "hints"}), "verdict": [kind, detail]})
+    if extra and not replay and not collect:
+        extra(rep, rd)
     shutil.rmtree(rd, ignore_errors=True)
     if collect:
         return {"evaluations": n_ev, "nontrivial": nontriv, "traces": len(traces), "verdict_counts": counts}
     return rep.finish({
         "evaluations": n_ev,
         "distinct_nontrivial": len(nontriv),
-        "traces_validated_against_impl": len(traces),
+        "traces_validated_against_impl": len(traces) + rep.cov.get("algorithm_conformance", {}).get("recorded_runs", 0),
         "rule": rule,
         "verdict_counts": counts,
         "exhaustive": False,
